@@ -32,8 +32,22 @@ META = {
             "assignment is compared with a cache-free recomputation after every step. That the ethash mutex really "
             "serialises getOrDefault (one atomic step in the model; C17_unlocked_getOrDefault_refuted shows what breaks "
             "otherwise) is probed deterministically with an instrumented EthashCacheI: a second thread is released "
-            "while the first is inside the factory and must not get in (rel and tsan variants).",
-    "note": "Honest limit: vProgPoW itself is an oracle (Section variable), only its caching is proved; data races are "
+            "while the first is inside the factory and must not get in (rel and tsan variants). "
+            "Round 2: the hashed byte string is modelled concretely (HeaderDefs: VbkBlock::toRaw, and the height / epoch / "
+            "nonce / 60-byte prefix progPowHashImpl reads back): toRaw is 65 bytes and injective in all nine fields on the "
+            "field types' ranges with nonce < 2^40, so is the cache key under a collision-free sha256twice, and "
+            "(height, nonce, prefix) determine every byte (C17_header_raw_length/_injective/_field_sensitive/_key_injective, "
+            "C17_raw_height_epoch_nonce, C17_kernel_inputs_injective/_field_sensitive); without the 40-bit premise it is "
+            "false (C17_header_raw_injective_all_nonces_refuted: uint64_t nonce, 5 bytes written). lru11 with ARBITRARY "
+            "values refines the unbounded map for every insert/tryGet/clear sequence - a hit is the latest value bound to "
+            "exactly that key, capacity and key uniqueness in every reachable state (C17_lru_refines_map, "
+            "C17_lru_key_confinement). Tie: ops hdr (real toRaw bytes and the epoch the real progPowHashImpl asks the "
+            "epoch cache for, via probing cache objects, vs the extracted model; key == sha256twice(toRaw) and "
+            "DeserializeFromRaw(toRaw(b)) == b iff nonce < 2^40 as direct oracles; single-field-change pairs) and lrum "
+            "(real lru11 with re-bound keys vs the extracted model), both gating.",
+    "note": "Observation (not gating): setNonce(n) with n >= 2^40 serialises like n mod 2^40, so two blocks that differ "
+            "under operator== hash alike; deserialised blocks never have such a nonce. "
+            "Honest limit: vProgPoW itself is an oracle (Section variable), only its caching is proved; data races are "
             "observed by TSan (header-cache hit path and lru11 under contention in quick; real hashing under TSan only in "
             "thorough, ~100 s per epoch), not proved. A changed eviction policy is not a purity violation: policy "
             "disagreements with the model are reported in the evidence only. Finding on the unchanged tree: UBSan "
